@@ -274,7 +274,7 @@ let run_case (toks : string list) : string =
               h := !cur; emit !res
             | Note -> emit "-"
             | Snap -> emit (duart_str hs.hm.mbus.duart_)
-            | Final -> emit (final_state hs.hm))) toks
+            | Final -> emit (String.map (fun c -> if c = ' ' then ';' else c) (final_state hs.hm)))) toks
    with Exit -> ());
   (match !h with
    | Some hs -> Buffer.add_string buf " | "; Buffer.add_string buf (final_state hs.hm)
